@@ -305,7 +305,7 @@ PROPS["C11"] = dict(
     verus=["c11_lists", "c11_pattern_block", "c03_option_text", "c11_cosmetic_parse", "c11_locations"],
     labels=["C11.", "C03.option_text.safety"],
     kani=[],
-    witness=["c11_hosts.rs"],
+    witness=["c11_hosts.rs", "c17_keys.rs"],
     trusted=["NetworkFilter::parse: the pattern / anchor / hostname extraction block (every string slice of it) and the option-name table are under contract (units c11_pattern_block, c03_option_text, c03_apply_options, c03_parse_mask); the hostname normalisation and parse_hosts_style are under contract in c11_pattern_block with to_lowercase, trim_start_matches(\"www.\"), idna and the INVALID_CHARS regex uninterpreted; CosmeticFilter::parse (unit c11_cosmetic_parse) is under contract for its own slices (the two '#', the marker characters, the `+js(` ... `)` window) with validate_css_selector (assumed: an accepted selector has at least one operator) and parse_scriptlet_args (unit c18_args) entering by contract; the location list (closure of locations_before_sharp, parse_before_sharp) is under contract in unit c11_locations; of parse_after_sharp_nonscript (labelled block + table of function pointers: outside the Verus subset) only its two slice statements are under contract (R7 single-statement lifts), under the branch conditions they sit behind (token found at i, text ends with ')') and the shape of the three action tokens, which IS checked on the function's own constants (R2: byte-string literals spelled as byte arrays)",
              "str::trim, split_whitespace, lines (R5/R6 shims)", "memchr / memrchr (shims)", "UTF-8 facts: an ASCII byte has a character boundary on both sides; both ends of a string are boundaries; ASCII text is encoded byte for character",
              "per-line error isolation in parse_filters_with_metadata (map/filter_map closure pipeline) is not under contract"],
